@@ -344,7 +344,7 @@ class Ctx:
         if any(v["key"] == key for v in self.violations):
             return True
         n = len(self.violations) + 1
-        rdir = os.path.join(VERIF, "replays", self.prop, "%s_%d_%d" % (self.tier, self.seed, n))
+        rdir = os.path.join(VERIF if REPO == "/repo" else "/tmp/auverif_alt_evidence", "replays", self.prop, "%s_%d_%d" % (self.tier, self.seed, n))
         if len(self.violations) < 25:
             os.makedirs(rdir, exist_ok=True)
             with open(os.path.join(rdir, "replay.json"), "w") as f:
@@ -375,8 +375,9 @@ class Ctx:
         ev = {"property_id": self.prop, "tier": self.tier, "seed": int(self.seed), "level": "model_checking",
               "coverage": cov, "assumptions": self.assumptions, "wall_s": round(wall, 2),
               "violations": len(self.violations)}
-        os.makedirs(os.path.join(VERIF, "evidence"), exist_ok=True)
-        with open(os.path.join(VERIF, "evidence", self.prop + ".json"), "w") as f:
+        evdir = os.path.join(VERIF, "evidence") if REPO == "/repo" else os.environ.get("AU_VERIF_ALT_EVIDENCE", "/tmp/auverif_alt_evidence")
+        os.makedirs(evdir, exist_ok=True)
+        with open(os.path.join(evdir, self.prop + ".json"), "w") as f:
             json.dump(ev, f, indent=1, default=str)
         self.log("done: states=%d transitions=%d traces=%d evaluations=%d violations=%d known=%d wall=%.1fs" % (
             self.states, self.transitions, self.traces, self.evaluations, len(self.violations),
